@@ -32,7 +32,7 @@ class Pool:
         return self.l.index(s)
 
 
-def build(nodes, utf8=False, resmap=None, extra_strings=(), line=1, pool_first=None):
+def build(nodes, utf8=False, resmap=None, extra_strings=(), line=1, pool_first=None, strip_mapped=False):
     resmap = dict(resmap or {})
     pool = Pool(list(resmap) if pool_first is None else list(pool_first))
     for s in extra_strings:
@@ -72,7 +72,9 @@ def build(nodes, utf8=False, resmap=None, extra_strings=(), line=1, pool_first=N
             raise ValueError(n[0])
     for n in nodes:
         emit(n)
-    sp = string_pool(pool.l, utf8=utf8)
+    # strip_mapped: the strings the resource map covers are written empty (as aapt does with attribute names when asked to)
+    nmapped = len(resmap) if (strip_mapped and pool_first is None) else 0
+    sp = string_pool(["" if i < nmapped else t for i, t in enumerate(pool.l)], utf8=utf8)
     rm = b""
     if resmap:
         ids = [resmap.get(s, 0) for s in pool.l[:max(i for i, s in enumerate(pool.l) if s in resmap) + 1]]
